@@ -39,7 +39,8 @@ def gen(rnd, zone, tier):
                 for m in (sets if tier == "thorough" else rnd.sample(sets, 6)):
                     spell = rnd.choice(["%02d:%02d"] * 8 + ["%d:%02d", "%d:%d"])           # %H:%M also reads hours and minutes without a leading zero
                     cases.append({"zone": zone, "now": now, "start": spell % divmod(s, 60), "days": [d for d in range(7) if m >> d & 1]})
-    return cases
+    cap = 12000 if tier == "quick" else 120000            # the full grid is a sample space, not a schedule: a run draws this many points per zone
+    return cases if len(cases) <= cap else rnd.sample(cases, cap)
 
 
 def gen_reuse(rnd, cases, n):
